@@ -437,6 +437,84 @@ def big_output_family(run, tier, seed):
             run.fail(dict(case, back=str(back)[:200]), "json_reader does not return the written record", kind="oracle")
 
 
+def positioned_stream_family(run, tier, seed):
+    """the text stream is handed over wherever it happens to be positioned: json_writer appends its documents after what
+    is already there (a title line), json_reader reads from the position it is given (the caller has consumed a schema
+    line, comments, or the first documents) — on seekable and on forward-only text streams"""
+    import random
+    r = random.Random(seed * 15 + 3)
+    schemas = [
+        ({"type": "record", "name": "Row", "fields": [{"name": "id", "type": "long"}, {"name": "name", "type": "string"}]},
+         [{"id": i, "name": "n%d" % i} for i in range(4)]),
+        ({"type": "map", "values": "int"}, [{"a": 1}, {"b": 2, "c": 3}, {}]),
+        ({"type": "array", "items": ["null", "string"]}, [["x", None], [], ["y"]]),
+        ("string", ["a", "b", "c"]),
+    ]
+
+    class ForwardOnly(io.TextIOBase):
+        def __init__(self, text):
+            self._s = io.StringIO(text)
+
+        def readable(self):
+            return True
+
+        def seekable(self):
+            return False
+
+        def read(self, n=-1):
+            return self._s.read(n)
+
+        def readline(self, n=-1):
+            return self._s.readline(n)
+
+        def __iter__(self):
+            return self
+
+        def __next__(self):
+            line = self._s.readline()
+            if not line:
+                raise StopIteration
+            return line
+
+    for s, recs in schemas:
+        it = impl_json(s, recs)
+        if "text" not in it:
+            continue
+        text = it["text"] + "\n"
+        base = impl_read(s, text)
+        preambles = ["# exported 2024\n", json.dumps(s) + "\n", "# a\n# b\n\n".replace("\n\n", "\n")]
+        for pre in preambles:
+            for skip_docs in (0, 1):
+                for kind in ("seekable", "forward-only"):
+                    case = {"schema": s, "n_records": len(recs), "preamble": pre, "documents_consumed_first": skip_docs, "stream": kind,
+                            "tags": ["positioned-stream", kind]}
+                    run.count(case, True, ["positioned-stream:" + kind])
+                    fo = io.StringIO(pre + text) if kind == "seekable" else ForwardOnly(pre + text)
+                    for _ in range(pre.count("\n") + skip_docs):
+                        fo.readline()
+                    try:
+                        got = [canon(to_wire(x)) for x in fastavro.json_reader(fo, copy.deepcopy(s))]
+                    except Exception as e:  # noqa
+                        got = "ERR:" + exc_class(e)
+                    want = [canon(x) for x in base["ok"][skip_docs:]] if "ok" in base else None
+                    if want is not None and got != want:
+                        case["got"], case["expected"] = got if isinstance(got, str) else len(got), len(want)
+                        run.fail(case, "json_reader does not return the written record when the stream is handed over at a position other "
+                                       "than its start", kind="oracle")
+        # writer: after a title
+        out = io.StringIO()
+        out.write("title line\n")
+        try:
+            fastavro.json_writer(out, copy.deepcopy(s), recs)
+            ok = out.getvalue() == "title line\n" + it["text"]
+        except Exception as e:  # noqa
+            ok = False
+        run.count({"schema": s, "tags": ["positioned-stream", "writer"]}, True, ["positioned-stream:writer"])
+        if not ok:
+            run.fail({"schema": s, "n_records": len(recs), "got": out.getvalue()[:200], "tags": ["positioned-stream", "writer"]},
+                     "json_writer on a stream that already holds text does not append exactly its documents", kind="oracle")
+
+
 def defaults_family(run, tier, seed):
     """a field absent from the JSON text takes its schema default — for every kind of field type (containers,
     named types by reference, unions), in the first and in later records of one text, and the caller's schema is
@@ -622,6 +700,7 @@ def run(tier, seed):
     defaults_family(run, tier, seed)
     empty_list_family(run, tier, seed)
     big_output_family(run, tier, seed)
+    positioned_stream_family(run, tier, seed)
     res = run_batch(dec_reqs) if dec_reqs else []
     for (case, back), r in zip(dec_meta, res):
         if "ok" not in r or by_value(canon(r["ok"])) != by_value(canon(back)):
